@@ -3,14 +3,15 @@
 import sys, json, subprocess, os
 HARD = "--hard" in sys.argv or "--hard2" in sys.argv
 HARD2 = "--hard2" in sys.argv
-argv = [a for a in sys.argv if a not in ("--hard", "--hard2")]
+TWO = "--two" in sys.argv
+argv = [a for a in sys.argv if a not in ("--hard", "--hard2", "--two")]
 m, ids = argv[1], argv[2:]
 W = f"/tmp/{m}"
 subprocess.run(f"git -C /repo worktree add -q --detach {W} HEAD", shell=True, check=True)
 props = {json.loads(l)["id"]: json.loads(l) for l in open("/verif/properties.jsonl")}
 t = ["# Task\n",
 "You are given a checkout of the Rust project w-henderson/Humphrey in this directory (a scratch git worktree: work ONLY here) and the text of "
-"semantic properties of it below. For EACH property listed, produce ONE change to the project's source that\n",
+"semantic properties of it below. For EACH property listed, produce " + ("TWO changes (in different functions, with different mechanisms, as unlike each other as you can make them)" if TWO else "ONE change") + " to the project's source that\n",
 "* breaks the property (the changed code really violates it on some input / schedule / history),",
 "* still compiles, and leaves the project's own test suite passing (`CARGO_NET_OFFLINE=true cargo test --workspace --no-fail-fast --offline`: 99 tests pass; the doc-test `test_url_parser`-style network failures, if any appear without your change too, do not count),",
 "* looks like a realistic commit a maintainer could make (a refactor, an optimisation, a 'simplification', a fix for something else) — not sabotage, no dead code, no special-casing of magic inputs,",
